@@ -41,8 +41,9 @@ import (
 type capSpec struct {
 	Name string `json:"name"`
 	Text []byte `json:"text"`
-	Fix  bool   `json:"fix"` // node is &x, &x[i] or &x.y (what fixedText rewrites)
-	Nil  bool   `json:"nil"` // typed nil node: skipped by the renderer
+	Fix  bool   `json:"fix"`  // node is &x, &x[i] or &x.y (what fixedText rewrites)
+	Nil  bool   `json:"nil"`  // no usable node (typed nil pointer, nil interface): skipped by the renderer
+	Kind int    `json:"kind"` // 0 a node, 1 typed nil pointer, 2 nil interface (bound to no node at all), 3 empty node slice
 	From int    `json:"from"`
 	To   int    `json:"to"`
 }
@@ -70,7 +71,8 @@ func truncSpec(s []byte, l int) []byte {
 	return append(out, s[len(s)-rgt:]...)
 }
 
-// interpSpec: `$$` -> whole match, `$name` -> text of the capture with the LONGEST name prefixing the rest, else `$`
+// interpSpec: `$$` -> whole match, `$name` -> text of the capture with the LONGEST name prefixing the rest (the FIRST
+// capture of that name when a name occurs twice, as everywhere else in the engine), else `$`
 func interpSpec(msg string, caps []capSpec, whole []byte, trunc bool, l int) string {
 	var out []byte
 	show := func(t []byte) []byte {
@@ -170,6 +172,12 @@ func isFixable(n ast.Node) bool {
 	}
 	return false
 }
+
+// a capture list in which two captures carry the same name and which is long enough for the library's unstable sort to
+// leave its insertion-sort range (14 captures): `$dd` is the FIRST capture named dd
+var dupChain = []string{"eee", "dd", "gg", "h", "ii", "jjj", "kk", "l", "mmm", "dd", "oo", "p", "qqq", "rr"}
+
+var fillerNames = []string{"q", "qq", "r1", "r22", "s", "t333", "u", "uu", "w4444", "k", "kk1", "j", "jjj1", "o55", "i", "ii2"}
 
 var nameChains = [][]string{
 	{"x"}, {"x", "xy"}, {"x", "xy", "xyz"}, {"xyz", "x", "xy"}, {"a", "ab", "b"}, {"foo", "f", "fo", "fooo"}, {"ab", "cd"},
@@ -284,12 +292,44 @@ func directLevel(enc *json.Encoder, rng *rand.Rand, n int) {
 	for i := 0; i < n; i++ {
 		names := append([]string{}, nameChains[rng.Intn(len(nameChains))]...)
 		rng.Shuffle(len(names), func(a, b int) { names[a], names[b] = names[b], names[a] })
+		switch {
+		case i < 3:
+			names = append([]string{}, dupChain...) // fixed: the same name twice among 14 captures
+		case i%5 == 4:
+			// some names twice (or three times), anywhere in the list; every other time padded beyond 12 captures
+			for k := 1 + rng.Intn(3); k > 0; k-- {
+				at := rng.Intn(len(names) + 1)
+				names = append(names[:at], append([]string{names[rng.Intn(len(names))]}, names[at:]...)...)
+			}
+			if i%10 == 9 {
+				for len(names) < 13+rng.Intn(8) {
+					at := rng.Intn(len(names) + 1)
+					names = append(names[:at], append([]string{fillerNames[rng.Intn(len(fillerNames))]}, names[at:]...)...)
+				}
+			}
+		}
 		var caps []gogrep.CapturedNode
 		var specs []capSpec
-		for _, nm := range names {
-			if rng.Intn(12) == 0 {
+		for ni, nm := range names {
+			if i < 3 {
+				// fixed: every capture holds a node, the two captures of one name hold different texts
+				nd := calls[(ni+i)%len(calls)].Args[0]
+				caps = append(caps, gogrep.CapturedNode{Name: nm, Node: nd})
+				specs = append(specs, capSpec{Name: nm, Text: text(nd), Fix: isFixable(nd)})
+				continue
+			}
+			switch rng.Intn(24) {
+			case 0, 1:
 				caps = append(caps, gogrep.CapturedNode{Name: nm, Node: (*ast.FieldList)(nil)})
-				specs = append(specs, capSpec{Name: nm, Nil: true})
+				specs = append(specs, capSpec{Name: nm, Nil: true, Kind: 1})
+				continue
+			case 2:
+				caps = append(caps, gogrep.CapturedNode{Name: nm, Node: nil}) // bound to no node at all
+				specs = append(specs, capSpec{Name: nm, Nil: true, Kind: 2})
+				continue
+			case 3:
+				caps = append(caps, gogrep.CapturedNode{Name: nm, Node: &gogrep.NodeSlice{}}) // `$*xs` that matched nothing
+				specs = append(specs, capSpec{Name: nm, Kind: 3})
 				continue
 			}
 			nd := nodes[rng.Intn(len(nodes))]
@@ -303,7 +343,11 @@ func directLevel(enc *json.Encoder, rng *rand.Rand, n int) {
 		if rng.Intn(4) == 0 {
 			whole = calls[rng.Intn(len(calls))].Args[0]
 		}
-		o := renderObs{K: "render", Msg: randTemplate(rng, names), Caps: specs, Whole: capSpec{Text: text(whole), Fix: isFixable(whole)},
+		tmpl := randTemplate(rng, names)
+		if i < 3 {
+			tmpl = []string{"$dd", "dd=$dd|$dd.b|$ddz", "$eee$dd$$ $rr"}[i]
+		}
+		o := renderObs{K: "render", Msg: tmpl, Caps: specs, Whole: capSpec{Text: text(whole), Fix: isFixable(whole)},
 			Trunc: rng.Intn(2) == 0, L: []int{0, 0, 10, 20, 61, 1000, 5, 3}[rng.Intn(8)]}
 		o.Want = []byte(interpSpec(o.Msg, specs, o.Whole.Text, o.Trunc, o.L))
 		func() {
